@@ -175,13 +175,14 @@ Hypothesis Hrounds : forall h r e, rs_get (sr_rounds st) h r = Some e -> h <= vh
 Hypothesis Hrep : forall x, In x (sr_replayed st) -> hd_height x <= vh /\
        (hd_height x = vh -> ph_fine ih (sr_hdrs st) vh x).
 
-Let vsv := chain_vals ih ivs (sr_hdrs st) vh.
+Variable vsv : valset.
+Hypothesis Hvsv : vsv = chain_vals ih ivs (sr_hdrs st) vh.
 
 Lemma voting_entry_good r :
   rentry_good ih (vs_keys vsv) (sr_hdrs st) vh r (rs_entry (sr_rounds st) vh r).
 Proof.
   unfold rs_entry. destruct (rs_get (sr_rounds st) vh r) as [e|] eqn:Hg.
-  - destruct (Hrounds _ _ _ Hg) as [_ H]. apply H. reflexivity.
+  - destruct (Hrounds _ _ _ Hg) as [_ H]. rewrite Hvsv. apply H. reflexivity.
   - unfold rentry_good, empty_rentry. cbn. split; [exact I|]. split; [exact I|]. intros p [].
 Qed.
 
